@@ -302,13 +302,20 @@ def codec(F, fe_ty):
         yield "EdwardsPoint::compress", f, ok, ("encodes y = Y/Z and the sign of x = X/Z" if ok else
                                                "encodes %s with the sign of %s, expected Y/Z and X/Z" % (show(enc[0]) if enc else "?", show(sg[0]) if sg else "?"))
     for sign in (0, 1):
-        inst = "CompressedEdwardsY::decompress[sign bit %d]" % sign
+        yield decode_instance(F, fe_ty, r"edwards::CompressedEdwardsY::decompress$", "CompressedEdwardsY::decompress", sign)
+
+
+def decode_instance(F, fe_ty, fn_rx, label, sign, raw_bytes=False):
+    """(instance, fn, ok, msg): an Edwards decoder (Option or CtOption result) on a valid y with the given sign bit: sqrt_ratio_i(y^2-1, d y^2+1), result (+-r, y, 1, x y)"""
+    x, y = affine(1)
+    if True:
+        inst = "%s[sign bit %d]" % (label, sign)
         b31 = I(128, 255) if sign else I(0, 127)
-        rep = ("st", (("arr", (I(0, 255),) * 31 + (b31,)),))
-        f, logged, ret, ip = encoded_values(F, fe_ty, r"edwards::CompressedEdwardsY::decompress$", [rep], from_bytes_sym="y", choices={r"sqrt_ratio_i$": 1})
+        arr = ("arr", (I(0, 255),) * 31 + (b31,))
+        rep = arr if raw_bytes else ("st", (arr,))
+        f, logged, ret, ip = encoded_values(F, fe_ty, fn_rx, [rep], from_bytes_sym="y", choices={r"sqrt_ratio_i$": 1})
         if logged is None:
-            yield inst, f, False, ip
-            continue
+            return inst, f, False, ip
         yv = fvar("y")
         sq = [a for nm, a in logged if nm.endswith("sqrt_ratio_i")]
         bad = []
@@ -319,6 +326,14 @@ def codec(F, fe_ty):
             if not eq_ratio(u, v, fadd(fmul(yv, yv), one, -1), fadd(fmul(d, fmul(yv, yv)), one)):
                 bad.append("sqrt_ratio_i is called on u/v = %s / %s, not (y^2-1)/(d y^2+1)" % (show(u), show(v)))
         somes = [fs[0] for vv, fs in ret[1] if vv == 1 and fs] if ret is not None and ret[0] == "en" else []
+        rv_ = ip.deconst(ret) if ret is not None else None
+        if not somes and rv_ is not None and rv_[0] == "st" and len(rv_[1]) == 2:
+            # CtOption { value, is_some }: with a valid y the flag must be 1
+            fl_ = ip.deconst(rv_[1][1])
+            while fl_ is not None and fl_[0] == "st" and len(fl_[1]) == 1:
+                fl_ = fl_[1][0]
+            if fl_ is not None and fl_[0] == "i" and fl_[1] == fl_[2] == 1:
+                somes = [ip.deconst(rv_[1][0])]
         if len(somes) != 1:
             bad.append("with a valid y the decoder does not return Some(point)")
         else:
@@ -333,7 +348,7 @@ def codec(F, fe_ty):
                     bad.append("(Y, Z) = (%s, %s), expected (y, 1)" % (show(Y), show(Z)))
                 if not is_zero(fadd(fmul(X, Y), fmul(Z, T), -1)):
                     bad.append("X*Y != Z*T")
-        yield inst, f, not bad, ("; ".join(bad) if bad else "sqrt_ratio_i(y^2-1, d y^2+1); result (%sr, y, 1, x y)" % ("-" if sign else ""))
+        return inst, f, not bad, ("; ".join(bad) if bad else "sqrt_ratio_i(y^2-1, d y^2+1); result (%sr, y, 1, x y)" % ("-" if sign else ""))
 
 
 # ------------------------------------------------------------------------------------------------ AVX2 vector formulas (C03)
